@@ -50,7 +50,7 @@ package ice
 //@   props C13
 //@   requires s.ctx != nil
 //@   ensures closed-handle-fails: s.ctx.gDone ==> err != nil && ctx == nil && cancel == nil
-//@   ensures open-handle-reads-under-its-own-context: !s.ctx.gDone ==> err == nil && ctx != nil
+//@   ensures open-handle-reads-under-its-own-context: !ctxIsDone(s.ctx) ==> err == nil && ctx != nil
 
 // Atomic-counter lemma: k live handles, each Close performs one atomic Add(-1);
 // the results are k-1, ..., 0 in the order of the atomic operations, so exactly
